@@ -1566,9 +1566,9 @@ def find_arg_optimal(variable, relation, mode):
     this relation.
     """
     if mode == "min":
-        best_rel_val = get_data_type_max(DEFAULT_TYPE)
+        best_rel_val = float("inf")
     elif mode == "max":
-        best_rel_val = get_data_type_min(DEFAULT_TYPE)
+        best_rel_val = -float("inf")
     else:
         raise ValueError("Invalid optimization mode: " + mode)
 
